@@ -143,7 +143,7 @@ pub fn check_region(case: &str, got: &[u32], w: i32, h: i32, lines: &[Polyline],
     Ok(st)
 }
 
-fn eval(path: &PathSpec, st: &StyleSpec, xf: &Xf) -> Result<Stat, Violation> {
+pub fn eval(path: &PathSpec, st: &StyleSpec, xf: &Xf) -> Result<Stat, Violation> {
     let scene = scene_of(path, st, xf);
     let case = scene.to_string();
     let got = super::common::render(&scene).map_err(|p| Violation::new("stroke/panic", case.clone(), p))?;
